@@ -389,3 +389,44 @@ def cli_converters(ctx, rid, modname, floor):
                 seen.setdefault(fl, (norm, ast.unparse(tk)))
     if n < floor:
         raise AnalysisError(f"{modname}: only {n} add_argument(type=...) sites found")
+
+
+def sole_outcome(ctx, outs, label):
+    """For rules written around one normal outcome of a function.  With several normal outcomes the one that does the most work is
+    analysed by the caller; every other normal exit must do the same top-level work (it may skip a loop over a list that its own
+    guard says is empty) and return the same value - otherwise it is reported: an exit that skips the work is a path on which the
+    property's effect does not happen.  Same work but another result cannot be judged here (ANALYSIS-ERROR)."""
+    R = ctx.report
+    if len(outs) == 1:
+        return outs
+    if not outs:
+        raise AnalysisError(label)
+
+    def work(o):
+        return [e for e in o.effects if isinstance(e, App) and e.op not in ("eff:assume", "eff:log")]
+
+    def implies_empty(conds, it):
+        return any(c in (App("not", (it,)), App("==", (App("len", (it,)), Const(0))), App("<", (App("len", (it,)), Const(1)))) for c in conds)
+    ranked = sorted(outs, key=lambda o: -len(list(all_effects(o.effects))))
+    main = ranked[0]
+    rid = f"{ctx.prop}-G1 no normal exit skips the work"
+    if rid not in R.rules:
+        R.rule(rid, 0, "every normal exit of an analysed function performs the effects the rules reason about")
+    for x in ranked[1:]:
+        xw = work(x)
+        missing = [e for e in work(main) if e not in xw and not (e.op == "eff:loop" and implies_empty(x.conds, e.args[0]))]
+        if not missing:
+            if x.value == main.value:
+                R.ok(rid, label)
+                continue
+            raise AnalysisError(f"{label}: several normal outcomes with the same effects but different results")
+        fi = None
+        for f in ctx.repo.all_functions():
+            if x.node is f.node or any(n is x.node for n in ast.walk(f.node)):
+                fi = f
+                break
+        R.fail(rid, label, mod=fi.module if fi else None, node=x.node, function=ctx.fq(fi) if fi else label,
+               construct=f"exit at {type(x.node).__name__} under {[repr(c)[:60] for c in x.conds[-2:]]}",
+               expected="every normal exit does what the other normal exits do (write the file, refresh the digest, store the entry, ...)",
+               found=f"this exit skips {repr(missing[0])[:220]}")
+    return [main]
